@@ -304,6 +304,12 @@ pub fn run(ctx: &mut Ctx) {
                 let len = (1 << 24) + rng.usize(1, 90_000);
                 crate::gen::gen_huge_tiles(&mut rng, codec, len)
             } else if i % 5 == 0 { spill_logical(&mut rng, codec, if codec == R::C_NONE { 2200 } else { 6000 }) } else { logical_for(ctx, "c13.logical", i) };
+            let mut l = l;
+            if i % 6 == 1 {
+                // a metadata section far above 64 KiB (sections read in several pieces)
+                l.meta = crate::gen::gen_metadata_large(&mut rng);
+                ctx.count("archives_with_metadata_above_64_kib");
+            }
             let Ok(bytes) = write_sync(l.build()) else {
                 ctx.inconclusive("reference write failed");
                 ctx.end(case);
